@@ -510,13 +510,20 @@ func (x *wexec) bad(si int, s WStep) {
 		x.ctlDl = &time.Time{}
 		x.call(si, 0, "WriteControl", true, -1, func() error { return c.WriteControl(s.MT, data, time.Time{}) })
 	case "prepared":
+		var pm *websocket.PreparedMessage
 		x.call(si, 0, "NewPreparedMessage", true, -1, func() error {
-			pm, e := websocket.NewPreparedMessage(s.MT, data)
+			var e error
+			pm, e = websocket.NewPreparedMessage(s.MT, data)
 			if e != nil {
+				pm = nil
 				return e
 			}
 			return c.WritePreparedMessage(pm)
 		})
+		if pm != nil {
+			// an invalid prepared message stays invalid however often it is sent
+			x.call(si, 1, "WritePreparedMessage", true, -1, func() error { return c.WritePreparedMessage(pm) })
+		}
 	case "writer":
 		x.writer(si, WStep{Op: "writer", MT: s.MT, Data: s.Data, Parts: s.Parts}, true)
 		// the invalid message occupies a Sent slot flagged Bad
